@@ -234,9 +234,10 @@ class EnsembleSampler(MarkovChain):
 
         # display completion message
         self.ProgressPrinter.iterations_final(iterations)
-        self.sample = concatenate(sample_arrays)
-        self.sample_probs = concatenate(prob_arrays)
-        self.chain_length = self.sample_probs.size
+        if len(sample_arrays) > 0:
+            self.sample = concatenate(sample_arrays)
+            self.sample_probs = concatenate(prob_arrays)
+            self.chain_length = self.sample_probs.size
 
     @staticmethod
     def pass_through(prop):
